@@ -246,7 +246,7 @@ Fixpoint key_expr (e : expr) : key :=
   match e with
   | EId n w _ _ => KL [KI 1; KS n; KI w]
   | ECond c a b => KL [KI 2; key_expr c; key_expr a; key_expr b]
-  | EMem a w _ => KL [KI 3; key_expr a; KI w]
+  | EMem a w s => KL (KI 3 :: key_expr a :: KI w :: match s with Some u => [key_expr u] | None => [] end)   (* the selector's key last (fix of C13) *)
   | EOp op args => KL (KI 4 :: KS op :: map key_expr args)
   | ESlice e1 lo hi => KL [KI 5; key_expr e1; KI lo; KI hi]
   | EAff _ _ => KL [KI 6]                (* the code raises NameError here; never reached on value expressions *)
